@@ -183,6 +183,12 @@ def signal(rng, N, kind=None, dtype=np.float64, views=False):
         x = rng.standard_normal(N) * 1e-6
     elif kind == "noise_big":
         x = rng.standard_normal(N) * 3e4
+    elif kind in ("loud_then_quiet", "quiet_then_loud"):
+        g = np.where(np.arange(N) < N // 2, 1e3, 1e-3)
+        x = rng.standard_normal(N) * (g if kind == "loud_then_quiet" else g[::-1])
+    elif kind == "click":
+        x = rng.standard_normal(N) * 1e-2
+        x[: min(N, 2)] = [3e4, -3e4][: min(N, 2)]
     elif kind == "zeros":
         x = np.zeros(N)
     elif kind == "const":
